@@ -326,6 +326,31 @@ def series_scenarios(ln, nn, seed):
     return out
 
 
+def narrow_int_scenarios(ln, nn, seed):
+    """Rewards as narrow integer arrays whose per-arm totals leave the range of the dtype: (label, run(dtype))."""
+    if ln in ("ts", "tsb"):
+        return []
+    lp, npol, _ = policy_objects(ln, nn)
+    cf = A.context_free(ln, nn)
+    dec = [1, 2, 1, 2, 1, 2, 1, 2]
+    rew = [100, 90, 110, 120, 100, 80, 90, 100]          # arm totals 400 / 390: beyond int8 and uint8
+
+    def run(dtype):
+        m = MAB([1, 2], lp, npol, seed=seed)
+        r = list(rew) if dtype is None else np.asarray(rew, dtype=dtype)
+        x = [[float(i % 3), float(i % 2)] for i in range(8)]
+        if cf:
+            m.fit(list(dec), r)
+            m.partial_fit([1, 2], [100, 100] if dtype is None else np.asarray([100, 100], dtype=dtype))
+            return [ops.norm(m.predict()), ops.norm(m.predict_expectations())]
+        m.fit(list(dec), r, x)
+        m.partial_fit([1, 2], [100, 100] if dtype is None else np.asarray([100, 100], dtype=dtype), [[1.0, 1.0], [0.0, 1.0]])
+        q = [[0.0, 0.0], [1.0, 1.0]]
+        return [ops.norm(m.predict(q)), ops.norm(m.predict_expectations(q))]
+    return [("int8", lambda: run(np.int8)), ("uint8", lambda: run(np.uint8)), ("int16", lambda: run(np.int16)),
+            ("list", lambda: run(None))]
+
+
 def baseline_assign():
     return {"fit_d": "list", "fit_r": "list_int", "fit_x": "list", "pf_d": "list", "pf_r": "list_int", "pf_x": "list",
             "q_x": "list"}
@@ -412,6 +437,25 @@ def run_shard(shard):
         for m in msgs[:2]:
             acc.violation("%s/%s str-labels %s" % (ln, nn, ",".join("%s=%s" % kv for kv in sorted(dev.items()))),
                           {"ln": ln, "nn": nn, "seed": seed, "assign": asg, "labels": "str"}, m)
+    # narrow integer reward arrays
+    runs = narrow_int_scenarios(ln, nn, seed)
+    if runs:
+        try:
+            ref = runs[-1][1]()
+        except Exception as e:                                # noqa: BLE001
+            ref = {"__exc__": type(e).__name__}
+        for label, run in runs[:-1]:
+            try:
+                got = run()
+            except Exception as e:                            # noqa: BLE001
+                got = {"__exc__": type(e).__name__}
+            acc.traces += 1
+            acc.case((ln, nn, "narrow", label))
+            acc.state((ln, nn, "narrow", label))
+            t = 1e-9 if ln in A.LINEAR_LPS else 1e-12
+            if not ops.same(got, ref, rtol=t, atol=t):
+                acc.violation("%s/%s rewards as %s array" % (ln, nn, label), {"ln": ln, "nn": nn, "seed": seed, "narrow": label},
+                              "rewards as %s array give %r, as a list %r" % (label, got, ref))
     tol = 1e-9 if ln in A.LINEAR_LPS else 0.0
     for label, run in series_scenarios(ln, nn, seed):
         try:
@@ -430,6 +474,14 @@ def run_shard(shard):
 
 
 def replay(w):
+    if "narrow" in w:
+        runs = dict(narrow_int_scenarios(w["ln"], w["nn"], w["seed"]))
+        t = 1e-9 if w["ln"] in A.LINEAR_LPS else 1e-12
+        try:
+            a, b = runs[w["narrow"]](), runs["list"]()
+        except Exception as e:                                # noqa: BLE001
+            return ["raised %s" % type(e).__name__]
+        return [] if ops.same(a, b, rtol=t, atol=t) else ["%s array %r != list %r" % (w["narrow"], a, b)]
     if "series" in w:
         for label, run in series_scenarios(w["ln"], w["nn"], w["seed"]):
             if label == w["series"]:
